@@ -323,7 +323,7 @@ func (ex *Exec) frozenKey(k string) bool {
 
 func (ex *Exec) havocKeys(st *State, keys []string) {
 	for _, k := range keys {
-		if ex.frozenKey(k) {
+		if ex.frozenKey(k) || strings.HasPrefix(k, "G|called|") {
 			continue
 		}
 		sort, ok := ex.universe[k]
